@@ -151,6 +151,10 @@ class Canon:
             base = self.c(e.value, frame, d)
             if isinstance(e.slice, ast.Constant):
                 key = repr(e.slice.value)
+                if isinstance(e.slice.value, int) and not isinstance(e.slice.value, bool) and e.slice.value >= 0:
+                    comp = tuple_component(base, e.slice.value)      # (a, b, c)[1] is b
+                    if comp is not None:
+                        return comp
             else:
                 key = self.c(e.slice, frame, d)
             return self._rewrite('%s[%s]' % (base, key))
@@ -320,6 +324,14 @@ class Canon:
                                for x in (e.slice.lower, e.slice.upper, e.slice.step))
             else:
                 key = self.p(e.slice, frame, d, seen)
+                if isinstance(e.slice, ast.Constant) and isinstance(e.slice.value, int) and not isinstance(
+                        e.slice.value, bool) and e.slice.value >= 0:
+                    comp = tuple_component(base, e.slice.value)
+                    if comp is not None:
+                        return comp
+                sm = split_map(base)
+                if sm is not None and sm[0] == key and ' if ' not in sm[2]:
+                    return sm[1]          # map[K: V for D][K] is V
             return self._rewrite('%s[%s]' % (base, key))
         if isinstance(e, (ast.ListComp, ast.GeneratorExp, ast.SetComp)):
             src = copy_source(e, order=True)
@@ -699,10 +711,38 @@ def split_seq(s):
     return body[:cut[0]], body[cut[0] + 5:cut[1]], body[cut[1]:]
 
 
+def split_map(s):
+    """'map[K: V for D]' -> (K, V, D) by bracket depth; None otherwise"""
+    if not (s.startswith('map[') and s.endswith(']')) or _match(s, 3) != len(s) - 1:
+        return None
+    body = s[4:-1]
+    depth = 0
+    colon = None
+    fors = []
+    i = 0
+    while i < len(body):
+        ch = body[i]
+        if ch in '([{':
+            depth += 1
+        elif ch in ')]}':
+            depth -= 1
+        elif depth == 0 and colon is None and body.startswith(': ', i):
+            colon = i
+        elif depth == 0 and colon is not None and body.startswith(' for ', i):
+            fors.append(i)
+        i += 1
+    if colon is None or len(fors) != 1:
+        return None
+    return body[:colon], body[colon + 2:fors[0]], body[fors[0] + 5:]
+
+
 def zip_map(pa, pb):
     """dict(zip(seq[K for D], seq[V for D.values()])) is map[K: V' for D] with the value
     variable rewritten to D[elem(D)]; same for two sequences over one iterable."""
     a, b = split_seq(pa), split_seq(pb)
+    if a is None and b is not None and not b[2] and b[1] == pa:
+        # zip(D, seq[V for D]): the keys are the elements of D themselves
+        return 'map[elem(%s): %s for %s]' % (pa, b[0], pa)
     if a is None or b is None or a[2] or b[2]:
         return None
     if b[1] == a[1]:
